@@ -27,6 +27,7 @@ type c02Case struct {
 	Threads  int      `json:"threads"`
 	Stdout   bool     `json:"stdout"` // -o stdout instead of a directory
 	RefLower bool     `json:"ref_lower"`
+	RefWidth int      `json:"ref_line_width"` // 0: the reference sequence on one line; else wrapped at this width
 	CLI      bool     `json:"cli,omitempty"`
 }
 
@@ -77,13 +78,21 @@ func c02ExpectedFor(c c02Case, name string) string {
 	return sb.String()
 }
 
-func runToPairAlign(c c02Case) (files map[string]string, stdout string, err error) {
-	samTxt := c.In.render()
+// refText renders the --reference file: one record, optionally lower case, on one line or wrapped.
+func (c c02Case) refText() string {
 	ref := c.In.Ref
 	if c.RefLower {
 		ref = strings.ToLower(ref)
 	}
-	refTxt := ">" + c.In.RefName + " some description\n" + ref + "\n"
+	if c.RefWidth > 0 {
+		ref = strings.TrimSuffix(wrapText(ref, c.RefWidth), "\n")
+	}
+	return ">" + c.In.RefName + " some description\n" + ref + "\n"
+}
+
+func runToPairAlign(c c02Case) (files map[string]string, stdout string, err error) {
+	samTxt := c.In.render()
+	refTxt := c.refText()
 	if c.Stdout {
 		stdout, err = captureStdout(func() error {
 			return mustRun("sam.ToPairAlign(stdout)", func() error {
@@ -120,6 +129,9 @@ func checkC02(c c02Case, o *Obs) error {
 	o.LabelIf(c.Wrap > 0, "wrap")
 	o.LabelIf(c.Threads > 1, "threads>1")
 	o.LabelIf(c.Stdout, "stdout")
+	o.LabelIf(c.RefWidth > 0, "reference-file-wrapped")
+	o.LabelIf(len(c.In.Ref) >= 32768, "reference>=32768")
+	o.LabelIf(len(c.In.Ref) >= 65536, "reference>=65536")
 	L := len(c.In.Ref)
 	names := c.In.queryNames()
 	nt, deep := false, false
@@ -201,11 +213,7 @@ func checkC02(c c02Case, o *Obs) error {
 	if c.CLI && gofastaBin() != "" {
 		dir, cleanup := caseDir("c02cli")
 		defer cleanup()
-		ref := c.In.Ref
-		if c.RefLower {
-			ref = strings.ToLower(ref)
-		}
-		args := []string{"sam", "toPairAlign", "-s", writeFile(dir, "in.sam", c.In.render()), "-r", writeFile(dir, "ref.fa", ">"+c.In.RefName+" some description\n"+ref+"\n"), "-t", "1", "-o", "stdout"}
+		args := []string{"sam", "toPairAlign", "-s", writeFile(dir, "in.sam", c.In.render()), "-r", writeFile(dir, "ref.fa", c.refText()), "-t", "1", "-o", "stdout"}
 		if c.SkipIns {
 			args = append(args, "--skip-insertions")
 		}
@@ -309,6 +317,21 @@ func sameBlocks(got, want string, names []string, c c02Case) string {
 }
 
 func genC02(t *rapid.T) c02Case {
+	if oneIn(t, "veryLongRef", 150) {
+		// a genome-sized reference on a single line (or wrapped): lines beyond 32 KiB / 64 KiB in the --reference reader,
+		// rows beyond 64 KiB in the writers
+		n := rapid.SampledFrom([]int{32767, 32768, 33000, 40000, 65535, 65536, 66000}).Draw(t, "veryLongLen") // not longer: gofasta decodes the reference in quadratic time
+		unit := genACGT(t, 997, "veryLongUnit")
+		ref := strings.Repeat(unit, n/997+1)[:n]
+		c := c02Case{In: genSamInput(t, samGenOpts{maxQueries: 2, maxRecs: 1 + rapid.IntRange(0, 1).Draw(t, "veryLongRecs"), fixedRef: ref, fixedRefName: "longref"})}
+		c.Start, c.End = -1, -1
+		c.Wrap = rapid.SampledFrom([]int{-1, -1, 60, 65536, n}).Draw(t, "bigWrap")
+		c.RefWidth = rapid.SampledFrom([]int{0, 0, 0, 60, 32768}).Draw(t, "refWidth")
+		c.Threads = rapid.SampledFrom([]int{1, 2}).Draw(t, "threads")
+		c.SkipIns = rapid.IntRange(0, 4).Draw(t, "skipIns") == 0
+		c.CLI = rapid.IntRange(0, 3).Draw(t, "cli") == 0
+		return c
+	}
 	c := c02Case{In: genSamInput(t, samGenOpts{maxRef: ifThorough(300, 60), maxQueries: 4, maxRecs: ifThorough(4, 3), allowNoise: true, iupacRef: true, slashNames: true, hugeEvery: 80})}
 	L := len(c.In.Ref)
 	c.SkipIns = rapid.IntRange(0, 4).Draw(t, "skipIns") == 0
@@ -319,6 +342,9 @@ func genC02(t *rapid.T) c02Case {
 	c.Stdout = rapid.IntRange(0, 5).Draw(t, "stdout") == 0
 	c.RefLower = rapid.IntRange(0, 5).Draw(t, "refLower") == 0
 	c.CLI = rapid.IntRange(0, 19).Draw(t, "cli") == 0
+	if rapid.IntRange(0, 3).Draw(t, "refWrapped") == 0 {
+		c.RefWidth = rapid.IntRange(1, L+2).Draw(t, "refWidth")
+	}
 	return c
 }
 
